@@ -15,7 +15,6 @@ Pipeline (DESIGN 4/C02):
 import json
 import os
 import random
-import re
 import time
 from concurrent.futures import ThreadPoolExecutor
 from multiprocessing import Pool
@@ -334,15 +333,21 @@ def run(ctx):
         base['SP_NV_' + g.upper()] = nvs[g]
     jobs = [('axioms-all', 'MC_Space_axioms.cfg', dict(base, SP_GROUP='all'), 8)]
     # all vectors over the alphabet on the small tensor leaves (reference laws only)
-    for g in (['tensor2'] if quick else ['tensor2', 'tensor']):
-        jobs.append(('axioms-allvectors-' + g, 'MC_Space_axioms.cfg', dict(base, SP_GROUP=g, SP_ALL='1'), 6))
+    jobs.append(('axioms-allvectors-tensor2', 'MC_Space_axioms.cfg', dict(base, SP_GROUP='tensor2', SP_ALL='1'), 6))
+    if not quick:     # all 125^2 pairs of real 3-vectors (the complex alphabet would be 216^2 pairs x 16 spaces)
+        jobs.insert(0, ('axioms-allvectors-tensor3-real', 'MC_Space_axioms.cfg',
+                        dict(base, SP_GROUP='tensor', SP_FLD='R', SP_ALL='1'), 8))
+    exports = []
     for g in GROUPS:
-        out = os.path.join(work, 'exp_%s.ndjson' % g)
-        jobs.append(('export-' + g, 'MC_Space_export.cfg', dict(base, SP_GROUP=g, OUT_FILE=out), 1))
+        for fld in (['RC'] if g in ('tensor', 'custom') else ['R', 'C']):      # one worker each: split the long ones
+            out = os.path.join(work, 'exp_%s_%s.ndjson' % (g, fld))
+            exports.append((g, out))
+            jobs.append(('export-%s-%s' % (g, fld), 'MC_Space_export.cfg',
+                         dict(base, SP_GROUP=g, SP_FLD=fld, OUT_FILE=out), 1))
 
     def go(j):
         return j[0], run_tlc('MC_Space.tla', j[1], work, env=j[2], workers=j[3], timeout=3000)
-    with ThreadPoolExecutor(max_workers=8) as ex:
+    with ThreadPoolExecutor(max_workers=10) as ex:
         results = list(ex.map(go, jobs))
     for name, res in results:
         ctx.add_tlc(name, res)
@@ -351,11 +356,11 @@ def run(ctx):
     # ---- 2. replay of exported cases on real ODL (process pool); events are streamed into trace chunks ----
     per_case = 2 if quick else 3
     tasks = []
-    for g in GROUPS:
-        with open(os.path.join(work, 'exp_%s.ndjson' % g)) as f:
+    for g, path in exports:
+        with open(path) as f:
             lines = f.readlines()
         if not lines:
-            raise MachineryError('empty export for ' + g)
+            raise MachineryError('empty export ' + os.path.basename(path))
         step = 150
         for s in range(0, len(lines), step):
             tasks.append((g, lines[s:s + step], per_case, ctx.seed, s // step))
